@@ -170,3 +170,25 @@ class block_hash:
 
     def ensures_current_header(self, result):
         return (result == dsha256(header_bytes(self)), header_bytes(self) == old(header_bytes(self)))
+
+
+# ---------------------------------------------------------------- parse_as_header(stream_header(b)) gives the header back
+import io as _io
+
+
+def roundtrip_header(version, previous_block_hash, merkle_root, timestamp, difficulty, nonce, rest):
+    f = _io.BytesIO()
+    Block(version, previous_block_hash, merkle_root, timestamp, difficulty, nonce).stream_header(f)
+    g = _io.BytesIO(f.getvalue() + rest)
+    return Block.parse_as_header(g), g.tell()
+
+
+@contract("contracts.c14_merkle:roundtrip_header")
+class c_roundtrip_header:
+    props = ["C14"]
+    sig = dict(version=U32, previous_block_hash=Bytes(n=32), merkle_root=Bytes(n=32), timestamp=U32, difficulty=U32, nonce=U32, rest=Bytes(sample_max=3))
+
+    def ensures_same(version, previous_block_hash, merkle_root, timestamp, difficulty, nonce, rest, result):
+        b = result[0]
+        return (b.version == version, b.previous_block_hash == previous_block_hash, b.merkle_root == merkle_root, b.timestamp == timestamp,
+                b.difficulty == difficulty, b.nonce == nonce, result[1] == 80)
